@@ -27,7 +27,9 @@ Record scase := {
   c_check : Z ;                 (* CheckTx: -1 not run, 0 rejected, 1 accepted *)
   c_check_pre : ledger ;        (* committed state the check ran on *)
   c_min_fee : Z ;
-  c_views : list (addr * Z * Z) (* after the transaction: keeper.GetBalance, StateDB.GetBalance *)
+  c_views : list (addr * Z * Z) ; (* after the transaction: keeper.GetBalance, StateDB.GetBalance *)
+  c_again : bool                (* the same signed Ethereum transaction (sender, nonce, recipient,
+                                   value, gas, price, data) was executed earlier in this history *)
 }.
 
 Definition same_on (s : state) (s' : state) (l : list addr) : bool :=
@@ -81,7 +83,10 @@ Definition sum_bal (s : state) (l : list addr) : Z := fold_right (fun a acc => b
    6 the EVM view of a balance differs from the native record
    7 executed although the nonce is not the account's nonce
    8 executed although Validate refuses it on the state it ran on (wrong chain id / signer,
-     price below the minimum fee, negative amount, bad memo, ...) *)
+     price below the minimum fee, negative amount, bad memo, ...)
+   9 the nonce of an account other than the sender changed (allowed: a created contract gets 1,
+     a self-destructed account loses its record)
+   10 the same signed transaction is executed a second time *)
 Definition monitor (c : scase) : list Z :=
   let s := mk_state (c_pre c) in
   let s' := mk_state (c_post c) in
@@ -106,9 +111,16 @@ Definition monitor (c : scase) : list Z :=
         (if bal_ok then [] else [1]) ++
         (if pool s' =? pool s + used * t_price t then [] else [2]) ++
         (if nonce_of s' from =? nonce_of s from + 1 then [] else [3]) ++
+        (if forallb (fun a =>
+              if decide (a = from) then true
+              else nonce_of s' a =?
+                   (if negb f && bool_decide (a ∈ o_dead o) then 0
+                    else if negb f && is_create t && bool_decide (a = to) then 1
+                    else nonce_of s a)) l then [] else [9]) ++
         (if sum_bal s' l + pool s' =? sum_bal s l + pool s then [] else [5]) ++
         (if t_nonce t =? nonce_of s from then [] else [7]) ++
-        (if validate s (e_min_fee e) t then [] else [8])
+        (if validate s (e_min_fee e) t then [] else [8]) ++
+        (if c_again c then [10] else [])
       else if unchanged then [] else [4]
   | ISend m t used =>
       if c_ok c then
@@ -119,7 +131,8 @@ Definition monitor (c : scase) : list Z :=
         (if bal_ok then [] else [1]) ++
         (if pool s' =? pool s + n_price t * used then [] else [2]) ++
         (if sum_bal s' l + pool s' =? sum_bal s l + pool s then [] else [5]) ++
-        (if send_validate m t then [] else [8])
+        (if send_validate m t then [] else [8]) ++
+        (if forallb (fun a => nonce_of s' a =? nonce_of s a) l then [] else [9])
       else if unchanged then [] else [4]
   end.
 
@@ -182,7 +195,7 @@ Definition mkN (from to amount price gas : Z) (sig : bool) : ntx :=
   {| n_from := Z.to_N from ; n_to := Z.to_N to ; n_amount := amount ; n_price := price ; n_gas := gas ;
      n_sig_ok := sig |}.
 Definition mkC (pre : ledger) (i : sinput) (ok : bool) (gu : Z) (post : ledger) (addrs : list Z)
-  (check : Z) (cpre : ledger) (minfee : Z) (views : list Z) : scase :=
+  (check : Z) (cpre : ledger) (minfee : Z) (views : list Z) (again : bool) : scase :=
   {| c_pre := pre ; c_in := i ; c_ok := ok ; c_gas_used := gu ; c_post := post ;
      c_addrs := map Z.to_N addrs ; c_check := check ; c_check_pre := cpre ; c_min_fee := minfee ;
-     c_views := triples_of views |}.
+     c_views := triples_of views ; c_again := again |}.
